@@ -36,7 +36,7 @@ API_D = ["U.api.create", "U.api.free", "U.api.keygen", "U.api.store", "U.api.loa
 
 ND_COMMON = []
 
-P("C01", level="proof", design_ref="7/C01", units=PACK + ["U.api.encode", "U.str.write"] + DEC + PHR + ["U.lang.search", "U.str.split", "U.str.nfkd_lazy", "L.rt.index", "U.lang.get_comparer"],
+P("C01", level="proof", design_ref="7/C01", units=PACK + ["U.api.encode", "U.str.write", "U.str.write.full"] + DEC + PHR + ["U.lang.search", "U.str.split", "U.str.nfkd_lazy", "L.rt.index", "U.lang.get_comparer"],
   engines=["tables"],
   text="Round trip decomposed into contracts proved on the real functions: packing/unpacking against the published layout with both "
        "inverse lemmas; polyseed_encode (sequence-level contract over an abstract language object: 16 words and 15 separators in order, "
@@ -54,7 +54,7 @@ P("C02", level="proof", design_ref="7/C02", units=GF + ["L.gf.single", "L.gf.swa
        "over those contracts with every coefficient, position and value symbolic; the decoders' and polyseed_load's contracts show the "
        "checksum status is returned exactly when the evaluation is non-zero, before any allocation (decoders) and with no seed surviving.",
   note="'another word of the same list' = another coefficient by the closed fact T.distinct (all words pairwise distinct under the comparer).")
-P("C03", level="proof", design_ref="7/C03", units=["U.gf.pack", "U.gf.encode", "L.gf.unique", "U.api.encode", "U.str.write", "U.api.create", "L.rt.index"], engines=["tables"],
+P("C03", level="proof", design_ref="7/C03", units=["U.gf.pack", "U.gf.encode", "L.gf.unique", "U.api.encode", "U.str.write", "U.str.write.full", "U.api.create", "L.rt.index"], engines=["tables"],
   text="polyseed_data_to_poly is proved equal to the published layout written independently in spec.h (check word first, 10 secret bits MSB "
        "first + one feature/birthday bit per word); polyseed_encode is proved to use the stored check value as word 1, XOR the coin into word 2 "
        "only, write words[c0] sep ... words[c15] in order with the language's separator and apply NFC exactly when the language composes, "
@@ -140,7 +140,7 @@ P("C16", level="proof", design_ref="7/C16", units=["U.api.free", "U.api.crypt", 
   note="Source-level only: compiler-made copies (spills, registers), dead stack contents and other optimisation levels are outside what a "
        "source-level contract can express.",
   not_decided=["residue in registers / dead stack frames of the compiled binary; behaviour at other optimisation levels"])
-P("C17", level="proof", design_ref="7/C17", units=["U.str.write", "U.api.encode", "U.str.nfkd_lazy"], engines=["tables"],
+P("C17", level="proof", design_ref="7/C17", units=["U.str.write", "U.str.write.full", "U.api.encode", "U.str.nfkd_lazy"], engines=["tables"],
   text="T.fits[lang]: for each registered language the sum of per-position maximal word lengths (admissible indices) plus separators is "
        "below POLYSEED_STR_SIZE in both the NFKD and the NFC form (exhaustive); write_str proved to advance by exactly strlen and to write only "
        "its slice; polyseed_encode proved, under fits, to keep every intermediate cursor and the terminator inside the buffer, to satisfy its own "
